@@ -196,3 +196,61 @@ def filters(null_value: str, quote: int):
 
 def filters_all():
     return all(filters(nv, q) for nv in ('0', '-1') for q in (0, 1, 2))
+
+
+# ---- write / read cycle: a dataset written by pharmpy for a model and read back through the generated $DATA / $INPUT
+# equals the model's dataset -----------------------------------------------------------------------------------------
+def write_read_cycle():
+    import shutil
+    import tempfile
+    import numpy as np
+    import pharmpy.modeling as pm
+    tmp = tempfile.mkdtemp(prefix='c13cycle_')
+    bad = []
+    try:
+        base = pm.load_example_model('pheno')
+        variants = {'pheno': base}
+
+        def add(name, f):
+            try:
+                variants[name] = f()
+            except Exception:  # noqa  (a variant that cannot be built is not the subject)
+                pass
+        add('tad', lambda: pm.add_time_after_dose(base))
+        add('dropped', lambda: pm.drop_columns(base, ['FA2'], mark=True))
+        add('removed', lambda: pm.drop_columns(base, ['FA1']))
+        add('cmt', lambda: pm.add_cmt(pm.set_first_order_absorption(base)))
+        df = base.dataset.copy()
+        df['LNWGT'] = np.log(df['WGT'])                    # full-precision doubles
+        df.loc[df.index[3], 'APGR'] = np.nan               # a missing value
+        add('derived', lambda: base.replace(dataset=df))
+        add('filtered', lambda: pm.filter_dataset(base, 'TIME < 100'))
+        for name, m in variants.items():
+            path = os.path.join(tmp, name + '.mod')
+            pm.write_model(m, path, force=True)
+            back = pm.read_model(path)
+            a, b = m.dataset, back.dataset
+            if len(a) != len(b):
+                bad.append(f'{name}: {len(b)} records read back, {len(a)} written')
+                continue
+            for col in a.columns:
+                try:
+                    if m.datainfo[col].drop:
+                        continue
+                except (IndexError, KeyError):
+                    continue
+                if col not in b.columns:
+                    bad.append(f'{name}: column {col} lost')
+                    continue
+                x, y = a[col].to_numpy(dtype=float), b[col].to_numpy(dtype=float)
+                same = (x == y) | (np.isnan(x) & np.isnan(y))
+                if not same.all():
+                    i = int(np.argmin(same))
+                    bad.append(f'{name}: {col}[{i}] written {x[i]!r} read back {y[i]!r}')
+    finally:
+        shutil.rmtree(tmp, ignore_errors=True)
+    if len(variants) < 5:
+        raise AssertionError('too few variants could be built')
+    if bad:
+        raise AssertionError('; '.join(bad[:5]))
+    return True
